@@ -152,12 +152,11 @@ func (w *c13World) c13V2CheckStats(app, asset uint64) {
 }
 
 // a bid of the outside bidder on some open surplus / debt / english auction (no collector effect)
-func (w *c13World) c13Bid(r *rng) {
+func (w *c13World) c13Bid(r *rng, k int) {
 	a := w.a
 	bidder := w.c13Bidder().String()
 	pct := int64(r.pickI(100, 102, 110, 150, 99))
 	var msg sdk.Msg
-	k := r.intn(3)
 	switch k {
 	case 0:
 		for _, app := range w.apps {
@@ -286,8 +285,10 @@ func (w *c13World) c13AuctionOp(r *rng, app, asset uint64) {
 		w.c13V1Debt(app, asset)
 	case k < 12:
 		w.c13V2CheckStats(app, asset)
+	case k < 14:
+		w.c13Bid(r, r.intn(3))
 	case k < 15:
-		w.c13Bid(r)
+		w.c13Scenario(r, app, asset)
 	case k < 17:
 		w.c13Advance(dt)
 		w.c13Obs()
@@ -302,6 +303,47 @@ func (w *c13World) c13AuctionOp(r *rng, app, asset uint64) {
 		}
 	default:
 		w.c13V2Liquidation(app, asset, coll)
+	}
+}
+
+// a whole auction of one generation: flags, fee inflow (or a low book), start, bid, time, close
+func (w *c13World) c13Scenario(r *rng, app, asset uint64) {
+	surplus, gen2 := r.chance(50), r.chance(50)
+	w.c13SetFlags(app, asset, surplus, !surplus, false)
+	w.c13Obs()
+	if surplus {
+		w.c13FeeIn(app, asset, sdk.NewInt(13000000))
+	} else {
+		w.c13FeeIn(app, asset, sdk.NewInt(int64(1+r.intn(1000))*1000))
+	}
+	w.c13Obs()
+	start := func() {
+		switch {
+		case gen2:
+			w.c13V2CheckStats(app, asset)
+		case surplus:
+			w.c13V1Surplus(app, asset)
+		default:
+			w.c13V1Debt(app, asset)
+		}
+	}
+	start()
+	w.c13Obs()
+	switch {
+	case gen2:
+		w.c13Bid(r, 2)
+	case surplus:
+		w.c13Bid(r, 0)
+	default:
+		w.c13Bid(r, 1)
+	}
+	w.c13Obs()
+	w.c13Advance(r.pickI(101, 301, 50))
+	w.c13Obs()
+	if gen2 {
+		w.c13V2Close()
+	} else {
+		start() // the same activator closes an active auction
 	}
 }
 
